@@ -392,13 +392,16 @@ theorem tl_chars (sub chan : Option Nat) (cls : Option Str) (hg : GoodCls cls) :
   · rcases cls_chars cls hg c hc with h | h <;> simp [h]
 
 /-- every character `render` can emit, except the separator -/
-def Plain (c : Char) : Prop := c = '.' ∨ c = ':' ∨ c = ' ' ∨ isDigit c = true ∨ isWordCh c = true
+def Plain (c : Char) : Prop := c = '.' ∨ c = ':' ∨ isSpace c = true ∨ isDigit c = true ∨ isWordCh c = true
+
+theorem space_facts (c : Char) (h : isSpace c = true) : isShortCh c = true ∧ c ≠ ',' ∧ c ≠ '/' := by
+  refine ⟨by simp [isShortCh, isPfxCh, h], ?_, ?_⟩ <;> (intro e; subst e; exact absurd h (by decide))
 
 theorem plain_short (c : Char) (h : Plain c) : isShortCh c = true ∧ c ≠ ',' ∧ c ≠ '/' := by
-  rcases h with rfl | rfl | rfl | h | h
+  rcases h with rfl | rfl | h | h | h
   · decide
   · decide
-  · decide
+  · exact space_facts c h
   · exact ⟨(digit_facts c h).2.2.2.1, (digit_facts c h).2.2.2.2.2.2.2, (digit_facts c h).2.2.2.2.2.2.1⟩
   · exact ⟨by simp [isShortCh, isPfxCh, h], (word_facts c h).2.2.2.2.2.1, (word_facts c h).2.2.2.2.1⟩
 
@@ -424,8 +427,30 @@ theorem last_ok (y : Str) (dg : Char) (hd : isDigit dg = true) (sub chan : Optio
         exact ⟨y ++ [dg] ++ ('.' :: ds), d, by simp [tl, optNum, clsStr, h1], (digit_facts d h2).2.1⟩
       | none => exact ⟨y, dg, by simp [tl, optNum, clsStr], (digit_facts dg hd).2.1⟩
 
+/-- a text that `strip` leaves alone does not begin with whitespace -/
+theorem head_of_strip_fix (p : Str) (h : strip p = p) : ∀ c, p.head? = some c → isSpace c = false := by
+  intro c hc
+  cases hs : isSpace c with
+  | false => rfl
+  | true =>
+    exfalso
+    cases p with
+    | nil => simp at hc
+    | cons a as =>
+      simp at hc; subst hc
+      have h1 : (strip (a :: as)).length ≤ (lstrip (a :: as)).length := by
+        unfold strip rstrip
+        simp only [List.length_reverse]
+        exact Nat.le_trans (List.dropWhile_sublist _).length_le (by simp)
+      have h2 : (lstrip (a :: as)).length ≤ as.length := by
+        simp only [lstrip, List.dropWhile, hs]
+        exact (List.dropWhile_sublist _).length_le
+      rw [h] at h1
+      simp at h1; omega
+
 /-- facts shared by the three shapes: `s = pfx ++ r`, `r` starts with a digit, ends as `last_ok` says -/
-theorem head_of_render (cls : Char → Bool) (pfx r : Str) (hp : ∀ c ∈ pfx, isWordCh c = true)
+theorem head_of_render (cls : Char → Bool) (pfx r : Str) (hp : ∀ c ∈ pfx, isPfxCh c = true)
+    (hstrip : strip pfx = pfx)
     (d0 : Char) (t : Str) (hr : r = d0 :: t) (hd0 : isDigit d0 = true)
     (hlast : ∃ y c, pfx ++ r = y ++ [c] ∧ isSpace c = false)
     (hall : ∀ c ∈ pfx ++ r, cls c = true) (hcomma : ∀ c ∈ pfx ++ r, c ≠ ',') :
@@ -439,14 +464,14 @@ theorem head_of_render (cls : Char → Bool) (pfx r : Str) (hp : ∀ c ∈ pfx, 
     · intro c hc
       cases pfx with
       | nil => simp [hr] at hc; subst hc; exact (digit_facts _ hd0).2.1
-      | cons a as => simp at hc; subst hc; exact (word_facts _ (hp _ (by simp))).2.1
+      | cons a as => exact head_of_strip_fix _ hstrip c (by simpa using hc)
     · obtain ⟨y, c, h1, h2⟩ := hlast
       intro c' hc'
       rw [h1] at hc'
       simp at hc'
       subst hc'; exact h2
   · have hst := takeWhile_append_stop isPfxCh pfx r
-      (fun c hc => by simp [isPfxCh, hp c hc])
+      hp
       (by intro c hc; simp [hr] at hc; subst hc; exact (digit_facts _ hd0).2.2.1)
     have hne : pfx ++ r ≠ [] := by simp [hr]
     have hall' : (pfx ++ r).all cls = true := List.all_eq_true.mpr hall
@@ -458,13 +483,26 @@ theorem head_of_render (cls : Char → Bool) (pfx r : Str) (hp : ∀ c ∈ pfx, 
 /-! ### parse ∘ render on the three shapes -/
 
 theorem plain_tl (sub chan : Option Nat) (cls : Option Str) (hg : GoodCls cls) :
-    ∀ c ∈ tl sub chan cls, Plain c := tl_chars sub chan cls hg
+    ∀ c ∈ tl sub chan cls, Plain c := by
+  intro c hc
+  rcases tl_chars sub chan cls hg c hc with h | h | h | h | h
+  · exact Or.inl h
+  · exact Or.inr (Or.inl h)
+  · subst h; exact Or.inr (Or.inr (Or.inl (by decide)))
+  · exact Or.inr (Or.inr (Or.inr (Or.inl h)))
+  · exact Or.inr (Or.inr (Or.inr (Or.inr h)))
 
 theorem plain_dec (n : Nat) : ∀ c ∈ toDec n, Plain c :=
   fun c hc => Or.inr (Or.inr (Or.inr (Or.inl (toDec_digits n c hc))))
 
-theorem plain_word (w : Str) (h : ∀ c ∈ w, isWordCh c = true) : ∀ c ∈ w, Plain c :=
-  fun c hc => Or.inr (Or.inr (Or.inr (Or.inr (h c hc))))
+theorem plain_word (w : Str) (h : ∀ c ∈ w, isPfxCh c = true) : ∀ c ∈ w, Plain c := by
+  intro c hc
+  have := h c hc
+  simp only [isPfxCh, Bool.or_eq_true] at this
+  rcases this with h | h
+  · exact Or.inr (Or.inr (Or.inr (Or.inr h)))
+  · exact Or.inr (Or.inr (Or.inl h))
+
 
 theorem firstDigits_dec (n : Nat) (t : Str) (ht : NDH t) : firstDigits (toDec n ++ t) = some (toDec n) := by
   obtain ⟨ds, d, h1, h2⟩ := toDec_snoc n
@@ -480,7 +518,7 @@ theorem firstDigits_dec (n : Nat) (t : Str) (ht : NDH t) : firstDigits (toDec n 
   simp [toDec_ne_nil]
 
 theorem roundtrip_short (pfx : Str) (p : Nat) (sub chan : Option Nat) (cls : Option Str)
-    (hp : ∀ c ∈ pfx, isWordCh c = true) (hg : GoodCls cls) :
+    (hp : ∀ c ∈ pfx, isPfxCh c = true) (hstrip : strip pfx = pfx) (hg : GoodCls cls) :
     parse (pfx ++ (toDec p ++ tl sub chan cls)) =
       .ok { pfx := pfx, sep := none, slot := none, card := none, port := p, sub := sub, chan := chan, cls := cls } := by
   obtain ⟨ds, dg, h1, h2⟩ := toDec_snoc p
@@ -500,7 +538,7 @@ theorem roundtrip_short (pfx : Str) (p : Nat) (sub chan : Option Nat) (cls : Opt
   have hlast : ∃ y c, pfx ++ (toDec p ++ tl sub chan cls) = y ++ [c] ∧ isSpace c = false := by
     obtain ⟨r, c, e1, e2⟩ := last_ok (pfx ++ ds) dg h2 sub chan cls hg
     exact ⟨r, c, by rw [← e1, h1]; simp, e2⟩
-  obtain ⟨hc, hs, hm⟩ := head_of_render isShortCh pfx (toDec p ++ tl sub chan cls) hp d0 (t0 ++ tl sub chan cls)
+  obtain ⟨hc, hs, hm⟩ := head_of_render isShortCh pfx (toDec p ++ tl sub chan cls) hp hstrip d0 (t0 ++ tl sub chan cls)
     (by simp [h0]) hd0 hlast (fun c hc => (plain_short c (hplain c hc)).1) (fun c hc => (plain_short c (hplain c hc)).2.1)
   have hcw : classWord (toDec p ++ tl sub chan cls) = cls := by
     rw [h1]; exact classWord_tl ds dg h2 sub chan cls hg
@@ -508,7 +546,7 @@ theorem roundtrip_short (pfx : Str) (p : Nat) (sub chan : Option Nat) (cls : Opt
   simp only [hc, hs, hm]
   simp only [Bool.false_eq_true, if_false, parseShort, firstDigits_dec p _ (ndh_tl sub chan cls), natOf_toDec,
     searchAfter_digits '.' (by decide) _ _ (toDec_digits p), searchAfter_digits ':' (by decide) _ _ (toDec_digits p),
-    sub_of_tl sub chan cls hg, chan_of_tl sub chan cls hg, hcw, updateInternalState, strip_word pfx hp]
+    sub_of_tl sub chan cls hg, chan_of_tl sub chan cls hg, hcw, updateInternalState, hstrip]
 
 
 theorem long_of_plain (c : Char) (h : Plain c ∨ c = '/') : isLongCh c = true ∧ c ≠ ',' := by
@@ -574,7 +612,7 @@ theorem scan3 (s c p : Nat) (sub chan : Option Nat) (cls : Option Str) :
 theorem roundtrip_long (pfx : Str) (num : Str) (s : Nat) (card : Option Nat) (p : Nat)
     (sub chan : Option Nat) (cls : Option Str)
     (hnum : num = toDec s ++ '/' :: (match card with | some c => toDec c ++ '/' :: toDec p | none => toDec p))
-    (hp : ∀ c ∈ pfx, isWordCh c = true) (hg : GoodCls cls) :
+    (hp : ∀ c ∈ pfx, isPfxCh c = true) (hstrip : strip pfx = pfx) (hg : GoodCls cls) :
     parse (pfx ++ (num ++ tl sub chan cls)) =
       .ok { pfx := pfx, sep := some '/', slot := some s, card := card, port := p, sub := sub, chan := chan, cls := cls } := by
   obtain ⟨ds, dg, h1, h2⟩ := toDec_snoc p
@@ -617,7 +655,7 @@ theorem roundtrip_long (pfx : Str) (num : Str) (s : Nat) (card : Option Nat) (p 
   have hlast : ∃ y' c, pfx ++ (num ++ tl sub chan cls) = y' ++ [c] ∧ isSpace c = false := by
     obtain ⟨r, c, e1, e2⟩ := last_ok (pfx ++ y) dg h2 sub chan cls hg
     exact ⟨r, c, by rw [← e1, hy]; simp, e2⟩
-  obtain ⟨hc, hs, hm⟩ := head_of_render isLongCh pfx (num ++ tl sub chan cls) hp d0
+  obtain ⟨hc, hs, hm⟩ := head_of_render isLongCh pfx (num ++ tl sub chan cls) hp hstrip d0
     (t0 ++ (match card with | some c => '/' :: (toDec c ++ '/' :: toDec p) | none => '/' :: toDec p) ++ tl sub chan cls)
     (by cases card <;> simp [hnum, h0]) hd0 hlast
     (fun c hc => (long_of_plain c (hch c hc)).1) (fun c hc => (long_of_plain c (hch c hc)).2)
@@ -655,8 +693,227 @@ theorem roundtrip_long (pfx : Str) (num : Str) (s : Nat) (card : Option Nat) (p 
   unfold parse parseSingle
   simp only [hc, hs, hm, matchHead_short_none _ hslash]
   cases card with
-  | some cd => simp [parseLong, hscan, hsub, hchan, hcw, updateInternalState, strip_word pfx hp]
-  | none => simp [parseLong, hscan, hsub, hchan, hcw, updateInternalState, strip_word pfx hp]
+  | some cd => simp [parseLong, hscan, hsub, hchan, hcw, updateInternalState, hstrip]
+  | none => simp [parseLong, hscan, hsub, hchan, hcw, updateInternalState, hstrip]
+
+
+
+/-! ## every constructed interface is canonical; canonical descriptions round-trip -/
+
+/-- what every constructed interface looks like -/
+structure Canon (d : Intf) : Prop where
+  pfxch : ∀ c ∈ d.pfx, isPfxCh c = true
+  pfxstrip : strip d.pfx = d.pfx
+  shape : (d.slot = none ∧ d.card = none ∧ d.sep = none) ∨ (d.slot.isSome = true ∧ d.sep = some '/')
+  cls : GoodCls d.cls
+
+theorem canon_roundtrip (d : Intf) (h : Canon d) : ∃ s, render d = .ok s ∧ parse s = .ok d := by
+  obtain ⟨pfx, sep, slot, card, port, sub, chan, cls⟩ := d
+  obtain ⟨hp, hst, hshape, hc⟩ := h
+  simp only at hp hst hshape hc
+  rcases hshape with ⟨rfl, rfl, rfl⟩ | ⟨hs, rfl⟩
+  · refine ⟨pfx ++ (toDec port ++ tl sub chan cls), by simp [render, number, tl], ?_⟩
+    exact roundtrip_short pfx port sub chan cls hp hst hc
+  · cases slot with
+    | none => simp at hs
+    | some s =>
+      cases card with
+      | none =>
+        refine ⟨pfx ++ ((toDec s ++ '/' :: toDec port) ++ tl sub chan cls), by simp [render, number, tl, sepStr], ?_⟩
+        exact roundtrip_long pfx _ s none port sub chan cls rfl hp hst hc
+      | some c =>
+        refine ⟨pfx ++ ((toDec s ++ '/' :: (toDec c ++ '/' :: toDec port)) ++ tl sub chan cls),
+          by simp [render, number, tl, sepStr], ?_⟩
+        exact roundtrip_long pfx _ s (some c) port sub chan cls rfl hp hst hc
+
+theorem mem_takeWhile_imp' (p : Char → Bool) (l : Str) (c : Char) (h : c ∈ l.takeWhile p) : p c = true := by
+  induction l with
+  | nil => simp at h
+  | cons a as ih =>
+    by_cases ha : p a = true
+    · simp only [List.takeWhile, ha, List.mem_cons] at h
+      rcases h with rfl | h
+      · exact ha
+      · exact ih h
+    · simp [List.takeWhile, ha] at h
+
+theorem all_of_dropWhile_nil (p : Char → Bool) (l : Str) (h : l.dropWhile p = []) : ∀ c ∈ l, p c = true := by
+  induction l with
+  | nil => simp
+  | cons a as ih =>
+    by_cases ha : p a = true
+    · simp only [List.dropWhile, ha] at h
+      intro c hc
+      rcases List.mem_cons.mp hc with rfl | hc
+      · exact ha
+      · exact ih h c hc
+    · simp [List.dropWhile, ha] at h
+
+theorem rstrip_prefix (l : Str) : rstrip l <+: l := by
+  unfold rstrip
+  have := (List.dropWhile_suffix isSpace (l := l.reverse))
+  simpa using List.reverse_prefix.mpr this
+
+theorem strip_mem (l : Str) (c : Char) (h : c ∈ strip l) : c ∈ l := by
+  unfold strip at h
+  have h1 := (rstrip_prefix (lstrip l)).sublist.mem h
+  exact (List.dropWhile_sublist _).mem h1
+
+theorem lstrip_head (l : Str) : ∀ c, (lstrip l).head? = some c → isSpace c = false := by
+  intro c hc
+  unfold lstrip at hc
+  have := List.head?_dropWhile_not isSpace l
+  rw [hc] at this
+  simpa using this
+
+theorem strip_strip (l : Str) : strip (strip l) = strip l := by
+  apply strip_id
+  · intro c hc
+    -- the head of a prefix of `lstrip l` is the head of `lstrip l`
+    obtain ⟨t, ht⟩ := rstrip_prefix (lstrip l)
+    unfold strip at hc
+    cases hr : rstrip (lstrip l) with
+    | nil => rw [hr] at hc; simp at hc
+    | cons a as =>
+      rw [hr] at hc ht
+      simp at hc; subst hc
+      exact lstrip_head l a (by rw [← ht]; simp)
+  · intro c hc
+    unfold strip rstrip at hc
+    rw [List.getLast?_reverse] at hc
+    have := List.head?_dropWhile_not isSpace (lstrip l).reverse
+    rw [hc] at this
+    simpa using this
+
+theorem classWord_good (r : Str) : GoodCls (classWord r) := by
+  intro w hw
+  unfold classWord at hw
+  simp only at hw
+  split at hw
+  · split at hw
+    · rename_i hcond
+      simp only [Option.some.injEq] at hw
+      subst hw
+      simp only [Bool.and_eq_true, bne_iff_ne, ne_eq] at hcond
+      refine ⟨hcond.2, ?_⟩
+      intro c hc
+      have : c ∈ r.reverse.takeWhile isWordCh := by simpa using hc
+      exact mem_takeWhile_imp' _ _ _ this
+    · cases hw
+  · cases hw
+
+theorem matchHead_spec (cls : Char → Bool) (t : Str) (g : Str × Str) (h : matchHead cls t = some g) :
+    (∀ c ∈ g.1, isPfxCh c = true) ∧ (∀ c ∈ g.2, cls c = true) := by
+  unfold matchHead at h
+  split at h
+  · cases h
+  · rename_i hcond
+    simp only [Bool.or_eq_true, decide_eq_true_eq, Bool.not_eq_true', not_or, Bool.not_eq_false] at hcond
+    have hall : ∀ c ∈ t, cls c = true := List.all_eq_true.mp hcond.2
+    simp only at h
+    split at h
+    · rename_i hnil
+      simp only [Option.some.injEq] at h
+      subst h
+      have hp : ∀ c ∈ t, isPfxCh c = true := by
+        intro c hc
+        exact all_of_dropWhile_nil _ _ hnil c hc
+      exact ⟨fun c hc => hp c (List.dropLast_subset t hc), fun c hc => hall c (List.drop_subset _ t hc)⟩
+    · simp only [Option.some.injEq] at h
+      subst h
+      exact ⟨fun c hc => mem_takeWhile_imp' _ _ _ hc, fun c hc => hall c ((List.dropWhile_sublist _).mem hc)⟩
+
+theorem optSep_mem (r : Str) (sp : Char) (h : (optSep r).1 = some sp) : sp ∈ r ∧ isSepCh sp = true := by
+  cases r with
+  | nil => simp [optSep] at h
+  | cons c cs =>
+    by_cases hc : isSepCh c = true
+    · simp [optSep, hc] at h; subst h; exact ⟨by simp, hc⟩
+    · simp [optSep, hc] at h
+
+theorem scan_sep (r : Str) (sl : Nat) (sp : Char) (c p : Option Nat)
+    (h : scanSlotCardPort r = some (sl, some sp, c, p)) : sp ∈ r ∧ isSepCh sp = true := by
+  unfold scanSlotCardPort at h
+  simp only at h
+  split at h
+  · cases h
+  · simp only [Option.some.injEq, Prod.mk.injEq] at h
+    obtain ⟨_, h2, _⟩ := h
+    obtain ⟨hm, hs⟩ := optSep_mem _ sp h2
+    exact ⟨(List.dropWhile_sublist _).mem hm, hs⟩
+
+theorem sep_is_slash (c : Char) (h1 : isLongCh c = true) (h2 : isSepCh c = true) : c = '/' := by
+  simp only [isSepCh, Bool.not_eq_true'] at h2
+  simpa [isLongCh, h2] using h1
+
+
+def RawOK (r : Raw) : Prop :=
+  (∀ c ∈ r.pfx, isPfxCh c = true) ∧ strip r.pfx = r.pfx ∧ GoodCls r.cls ∧
+  ((r.slot = none ∧ r.card = none ∧ r.sep = none) ∨ (r.slot.isSome = true ∧ r.sep = some '/'))
+
+theorem parseShort_ok (g : Str × Str) (r : Raw) (hg : ∀ c ∈ g.1, isPfxCh c = true)
+    (h : parseShort g = .ok r) : RawOK r := by
+  unfold parseShort at h
+  split at h
+  · cases h
+  · simp only [Except.ok.injEq] at h
+    subst h
+    exact ⟨fun c hc => hg c (strip_mem _ _ hc), strip_strip _, classWord_good _, Or.inl ⟨rfl, rfl, rfl⟩⟩
+
+theorem parseLong_ok (g : Str × Str) (r : Raw) (hg : ∀ c ∈ g.1, isPfxCh c = true)
+    (hl : ∀ c ∈ g.2, isLongCh c = true) (h : parseLong g = .ok r) : RawOK r := by
+  unfold parseLong at h
+  split at h
+  · cases h
+  · rename_i slot sep1 card port hscan
+    simp only at h
+    split at h
+    · cases h
+    · rename_i sp
+      simp only [Except.ok.injEq] at h
+      subst h
+      obtain ⟨hm, hs⟩ := scan_sep _ _ _ _ _ hscan
+      have : sp = '/' := sep_is_slash sp (hl sp hm) hs
+      subst this
+      exact ⟨fun c hc => hg c (strip_mem _ _ hc), strip_strip _, classWord_good _, Or.inr ⟨rfl, rfl⟩⟩
+
+theorem parseSingle_ok (s : Str) (r : Raw) (h : parseSingle s = .ok r) : RawOK r := by
+  unfold parseSingle at h
+  split at h
+  · cases h
+  · simp only at h
+    split at h
+    · rename_i g hm
+      exact parseShort_ok g r (matchHead_spec _ _ g hm).1 h
+    · split at h
+      · rename_i g hm
+        exact parseLong_ok g r (matchHead_spec _ _ g hm).1 (matchHead_spec _ _ g hm).2 h
+      · cases h
+
+/-- every constructed interface is canonical -/
+theorem parse_canon (s : Str) (d : Intf) (h : parse s = .ok d) : Canon d := by
+  unfold parse at h
+  split at h
+  · rename_i r hr
+    obtain ⟨h1, h2, h3, h4⟩ := parseSingle_ok s r hr
+    unfold updateInternalState at h
+    split at h
+    · rename_i sl p hsl hp
+      simp only [Except.ok.injEq] at h
+      subst h
+      refine ⟨by simpa [h2] using h1, by simp [h2], ?_, h3⟩
+      rcases h4 with ⟨h5, _, _⟩ | ⟨_, h6⟩
+      · rw [hsl] at h5; cases h5
+      · exact Or.inr ⟨rfl, h6⟩
+    · rename_i p hsl hp
+      simp only [Except.ok.injEq] at h
+      subst h
+      refine ⟨by simpa [h2] using h1, by simp [h2], ?_, h3⟩
+      rcases h4 with ⟨_, _, h7⟩ | ⟨h5, _⟩
+      · exact Or.inl ⟨rfl, rfl, h7⟩
+      · rw [hsl] at h5; simp at h5
+    · cases h
+  · cases h
 
 
 end Ccp.Intf
